@@ -209,15 +209,16 @@ int main(int argc, char **argv) {
         static const int PS[] = {-2, -1, 1, 99}; if(i % 1201 == 0) o.sample = g_seeds[s].first + ": preselect " + std::to_string(PS[ps]) + "; " + FU_NAME[f1] + "; " + FU_NAME[f2];
         run_case(g_seeds[s].second, o, false, f1, f2, PS[ps]); };
       fams.push_back(F); }
-    { en::Family F; F.name = "varlen_extremes"; F.count = 4 * 12 * 3 * 3 * 2; F.chunk = 16; F.budget_s = 30; F.describe = "variable-length quantities of 1..12 bytes (continuation byte {FF,81,80} x final byte {7F,00,01}) as delta time, meta length, SysEx length and XMI/MUS delay, with and without payload behind them";
-      F.run = [](uint64_t i, en::CaseOut &o) { int where = (int)(i % 4), k = 1 + (int)((i / 4) % 12), c = (int)((i / 48) % 3), l = (int)((i / 144) % 3), pay = (int)(i / 432);
+    { en::Family F; F.name = "varlen_extremes"; F.count = 5 * 12 * 3 * 3 * 2; F.chunk = 16; F.budget_s = 30; F.describe = "variable-length quantities of 1..12 bytes (continuation byte {FF,81,80} x final byte {7F,00,01}) as delta time, meta length, SysEx length and XMI/MUS delay, with and without payload behind them";
+      F.run = [](uint64_t i, en::CaseOut &o) { int where = (int)(i % 5), k = 1 + (int)((i / 5) % 12), c = (int)((i / 60) % 3), l = (int)((i / 180) % 3), pay = (int)(i / 540);
         static const uint8_t CB[] = {0xFF, 0x81, 0x80}, LB[] = {0x7F, 0x00, 0x01}; Bytes vl; for(int q = 0; q + 1 < k; q++) vl.push_back(CB[c]); vl.push_back(LB[l]);
         Bytes b;
         if(where == 0) { gm::Track t; t.ev(0, {0x90, 60, 100}); gm::append(t.d, vl); t.raw({0x80, 60, 0}); if(pay) t.eot(0); b = gm::smf(0, 96, {t.d}); }
         else if(where == 1) { gm::Track t; t.raw({0x00, 0xFF, 0x01}); gm::append(t.d, vl); if(pay) { for(int q = 0; q < 40; q++) t.d.push_back('a'); t.eot(0); } b = gm::smf(0, 96, {t.d}); }
         else if(where == 2) { gm::Track t; t.raw({0x00, 0xF0}); gm::append(t.d, vl); if(pay) { for(int q = 0; q < 40; q++) t.d.push_back(0x11); t.d.push_back(0xF7); t.eot(0); } b = gm::smf(0, 96, {t.d}); }
+        else if(where == 4) { Bytes sc = {0x90, 0xBC, 0x70}; gm::append(sc, vl); if(pay) { sc.push_back(0x00); sc.push_back(0x3C); } sc.push_back(0x60); b = gm::mus(sc, 1, 1); }
         else { gm::XmiSong x; x.evnt = {0x90, 60, 100}; gm::append(x.evnt, vl); x.evnt.push_back(0xFF); x.evnt.push_back(0x01); gm::append(x.evnt, vl); if(pay) { for(int q = 0; q < 40; q++) x.evnt.push_back('z'); x.evnt.push_back(0xFF); x.evnt.push_back(0x2F); x.evnt.push_back(0); } b = gm::xmi({x}); }
-        o.sample = std::string(where == 0 ? "delta" : where == 1 ? "meta length" : where == 2 ? "sysex length" : "xmi duration+meta length") + " varlen " + vu::hex(vl);
+        o.sample = std::string(where == 0 ? "delta" : where == 1 ? "meta length" : where == 2 ? "sysex length" : where == 4 ? "MUS delay" : "xmi duration+meta length") + " varlen " + vu::hex(vl);
         run_case(b, o); };
       fams.push_back(F); }
     { static const size_t SZ[] = {1024, 4096, 16384, 65536};
